@@ -543,13 +543,13 @@ fn main() {
                 continue;
             }
             let vdesc = format!("{vname} tail={tail:?}");
-            if !ctx.common_case(|| format!("BitVec::<build vector> {vdesc}")) {
+            if !ctx.common_case(|| format!("BitVec::<build-vector> {vdesc}")) {
                 continue;
             }
             let bv = match guard(|| build(&m, tail)) {
                 Outcome::Ret(b) => b,
                 Outcome::Panic(msg) => {
-                    ctx.violation(&format!("{prop}|BitVec::<build vector>|panic"), msg);
+                    ctx.violation(&format!("{prop}|BitVec::<build-vector>|panic"), msg);
                     continue;
                 }
             };
@@ -558,7 +558,7 @@ fn main() {
             all_stacks(&mut run, &bv, thorough);
             // the hinted primitives of the bit vector itself, called within their contract: every (position, hint
             // word) / (rank, hint one) / (rank, hint zero) combination on vectors of up to 700 bits
-            if m.len() <= 700 && ctx.case(|| format!("BitVec::<hinted primitives> vector={vdesc}")) {
+            if m.len() <= 700 && ctx.case(|| format!("BitVec::<hinted-primitives> vector={vdesc}")) {
                 ctx.nontrivial();
                 let r = guard(|| -> Option<(String, String)> {
                     if prop == "C01" {
@@ -596,11 +596,11 @@ fn main() {
                 match r {
                     Outcome::Ret(None) => {}
                     Outcome::Ret(Some((k, w))) => ctx.violation(&format!("{prop}|{k}"), format!("{vdesc}: {w}")),
-                    Outcome::Panic(msg) => ctx.violation(&format!("{prop}|BitVec::<hinted primitives>|panic"), format!("{vdesc}: {msg}")),
+                    Outcome::Panic(msg) => ctx.violation(&format!("{prop}|BitVec::<hinted-primitives>|panic"), format!("{vdesc}: {msg}")),
                 }
             }
             // which subinventory encodings did the adaptive selectors build on this vector? (verification hook)
-            if prop == "C02" && tail == Tail::Fresh && ctx.case(|| format!("SelectAdapt::<span-type census> vector={vdesc}")) {
+            if prop == "C02" && tail == Tail::Fresh && ctx.case(|| format!("SelectAdapt::<span-type-census> vector={vdesc}")) {
                 for inv in [0usize, 3, 5, 12] {
                     for sub in [0usize, 1, 3] {
                         if let Outcome::Ret((a, z)) = guard(|| {
